@@ -94,6 +94,17 @@ def run(res: C.Result):
                         why.append(("labels:rejected-trial-changed-labels", f"move object {j}: labels changed by a trial with verdict {t['outcome']}"))
                 if post["ctx"]["N"] != pre["ctx"]["N"]:
                     why.append(("counter", f"counter changed {pre['ctx']['N']} -> {post['ctx']['N']} by a trial with verdict {t['outcome']}"))
+                # the label arrays did not change: then the ATOMS under them must not have moved either (one label per atom identity)
+                if sorted(post["vid"]) == sorted(pre["vid"]) and post["vid"] != pre["vid"]:
+                    for j in label_leaves:
+                        lp = pre["leaves"][j]["labels"]
+                        lq = post["leaves"][j]["labels"]
+                        if len(lp) == pre["n"] and len(lq) == post["n"]:
+                            moved = [v for i, v in enumerate(pre["vid"]) if lq[post["vid"].index(v)] != lp[i]]
+                            if moved:
+                                why.append(("labels:misaligned-after-rejection", f"move object {j}: after a trial with verdict {t['outcome']} the atoms {moved[:4]} sit under other labels than before "
+                                            f"(atom order {pre['vid']} -> {post['vid']}, labels unchanged)"))
+                                break
             else:
                 added = ev["ctx"]["added"] if ev else []
                 removed = ev["ctx"]["deleted"] if ev else []
